@@ -4,6 +4,7 @@ from .. import common, codec, coqrun, filerun, sessrun
 
 TRUSTED = [
     'Coq 8.16.1 kernel + vm_compute (no native_compute)',
+    'translator/blf2coq.py for the signature search of ObjectHeaderBase::read (its exit test is a field of the regenerated scan_p) and the codecs the inflating worker runs; hand-written std::fstream model Sem.s_read/s_seek incl. behaviour on a closed file (C06_close_under_inflating_worker)',
     'hand-written pipeline models Lib/WPipe.v / Lib/RPipe.v; their blocking conditions are the wait predicates proved equal to the translated source (C15/C16); their thread programs are tied to File.cpp by decidable facts about statement skeletons regenerated on every run (C06_code_shape)',
     'native sessions (harness/file.cpp, ASan+UBSan, watchdog) on the plain build and on the build with yield/sleep injection at every lock/unlock/wait (harness/sched/shim.h): supporting evidence, not proof',
     'modelled, not verified: condition variables (monitor semantics), thread spawn/join, weak fairness of the OS scheduler',
@@ -12,7 +13,7 @@ TRUSTED = [
 
 def run(v, tier, seed, replay=None):
     meta, _ = common.translate()
-    ok, failed, info = coqrun.prove(v, 'C06', ['Inst/SkelEq.v', 'Inst/SyncEq.v', 'Inst/QueueEq.v'])
+    ok, failed, info = coqrun.prove(v, 'C06', ['Inst/SkelEq.v', 'Inst/SyncEq.v', 'Inst/QueueEq.v', 'Inst/TermEq.v', 'Inst/CloseEq.v'])
     mexe = common.build_model_driver()
     plain, sched = sessrun.harnesses()
     rng = random.Random(seed)
@@ -72,6 +73,39 @@ def run(v, tier, seed, replay=None):
         elif not ko[0].startswith('FE ok') and ko[0] != 'SKIPPED':
             nbad += 1
             v.violation('C06:bigrequest', 'reading a file with 200000-byte texts: %s [%s]' % (ko[0][:100], nm), {'implementation': ko[0][:200]})
+    # close() taking effect exactly between two operations of the inflating worker on the compressed file (C06_close_under_inflating_worker):
+    # the worker is parked before its (k+1)-th acquisition of CompressedFile's mutex, released when close() has closed the fstream
+    kfiles = [(12, 96), (40, 200)] if tier == 'quick' else [(12, 96), (40, 200), (300, 4096), (5, 48)]
+    kmax = 72 if tier == 'quick' else 260
+    kcases = []
+    for nobj, cs in kfiles:
+        data, _ = sessrun.big_read_file(mexe, nobj, cs, rng)
+        for k in range(kmax):
+            kcases.append({'k': k, 'nobj': nobj, 'cs': cs, 'line': 'FK %d %s' % (k, data.hex())})
+    km = codec.run_model(mexe, [c['line'] for c in kcases])
+    old_spins = sum(1 for o in km if 'old_cend=fuel' in o)
+    kruns = [('sched:0', 0)] + [('sched:%d' % (seed * 7 + j + 1), seed * 7 + j + 1) for j in range(1 if tier == 'quick' else 3)]
+    nparked = 0
+    for nm, sd in kruns:
+        ko = sessrun.run_impl(sched, [c['line'] for c in kcases], sd, {'VERIF_WD_SECONDS': '12'})
+        for c, mo, o in zip(kcases, km, ko):
+            if o == 'SKIPPED':
+                continue
+            nparked += 1 if 'parked=1' in o else 0
+            if 'cend=fuel' in mo.split(' old_cend')[0] or 'oend=fuel' in mo:
+                nbad += 1
+                v.violation('C06:close-at:model', 'the model of the read session does not end when the compressed file is closed after %d operations of the inflating worker: %s' % (c['k'], mo[:80]),
+                            {'scenario': c['line'][:60], 'model': mo[:200]})
+            elif o.startswith('HANG'):
+                nbad += 1
+                v.violation('C06:close-at:hang', 'close() does not return when it closes the compressed file just before operation %d of the inflating worker on it (file of %d objects, %d-byte containers): %s [%s]'
+                            % (c['k'] + 1, c['nobj'], c['cs'], o[:60], nm),
+                            {'scenario': 'FK %d <file>' % c['k'], 'file_hex': c['line'].split(' ')[2], 'objects_in_file': c['nobj'], 'container_size': c['cs'], 'build': nm,
+                             'implementation': o[:200], 'model_old_search': mo.split('old_cend=')[1] if 'old_cend=' in mo else ''})
+            elif not (o.startswith('FK ok') and ' flags=010 ' in o and o.endswith('leaked=0')):
+                nbad += 1
+                v.violation('C06:close-at:other', 'read session closed just before operation %d of the inflating worker: %s [%s]' % (c['k'] + 1, o[:100], nm),
+                            {'scenario': 'FK %d <file>' % c['k'], 'file_hex': c['line'].split(' ')[2], 'implementation': o[:200]})
     if not ok and not v.violations:
         for fl in failed:
             v.violation('coq:' + fl['lemma'], 'proof obligation %s (%s:%d) no longer checks: %s' % (fl['lemma'], fl['file'], fl['line'], fl['error'][:200]),
@@ -80,11 +114,13 @@ def run(v, tier, seed, replay=None):
     v.coverage.update({
         'obligations': info['obligations'], 'discharged': info['discharged'], 'checker_cmd': info['checker_cmd'],
         'trusted_base': TRUSTED + info['print_assumptions'], 'failed_obligations': info['failed'],
-        'evaluations': len(cases) * len(runs) + 2 * len(wl) + 3 + 2 * len(rz), 'distinct_nontrivial': len(cases) + len(wl) + 2,
-        'rule': 'read sessions on assembled files large enough to fill the pipeline (9000 objects in 4 KiB containers, 6000 in 128 KiB containers, 30 in 64-byte containers): read k in {0,3,11,all} objects, pause so that both workers block on full buffers, then close() / destroy / close twice then destroy; write sessions with container sizes below, at and above the construction-time buffer and objects larger than both; write sessions whose container size is changed mid-way (shrunk and grown); read sessions over files whose objects (200000 / 300000 bytes) need a single read request larger than the internal buffer; each on the plain build and on builds with seeded yield/sleep injection at every lock/unlock/wait. A watchdog expiry is a hang. Non-trivial = distinct scenario.',
+        'evaluations': len(cases) * len(runs) + 2 * len(wl) + 3 + 2 * len(rz) + len(kcases) * len(kruns), 'distinct_nontrivial': len(cases) + len(wl) + 2 + len(kcases),
+        'close_at': {'cases': len(kcases), 'builds': [n for n, _ in kruns], 'worker_parked_at_the_chosen_operation': nparked,
+                     'close_points_at_which_the_former_search_spins_in_the_model': old_spins},
+        'rule': 'read sessions on assembled files large enough to fill the pipeline (9000 objects in 4 KiB containers, 6000 in 128 KiB containers, 30 in 64-byte containers): read k in {0,3,11,all} objects, pause so that both workers block on full buffers, then close() / destroy / close twice then destroy; write sessions with container sizes below, at and above the construction-time buffer and objects larger than both; write sessions whose container size is changed mid-way (shrunk and grown); read sessions over files whose objects (200000 / 300000 bytes) need a single read request larger than the internal buffer; each on the plain build and on builds with seeded yield/sleep injection at every lock/unlock/wait; read sessions in which close() takes effect exactly before the k-th operation of the inflating worker on the compressed file, for every k up to several containers (the worker is parked at that acquisition of the mutex of CompressedFile and released once close() has closed the fstream). A watchdog expiry is a hang. Non-trivial = distinct scenario.',
         'builds': [n for n, _ in runs], 'hangs_or_crashes': nbad,
         'samples': [c['line'][:60] + '...' for c in cases[:3]] + [w['line'][:80] + '...' for w in wl[:2]],
-        'theorems': ['C06_write_stuck_free', 'C06_write_terminates', 'C06_read_stuck_free', 'C06_read_request_above_buffer_finishes', 'C06_code_shape'],
+        'theorems': ['C06_write_stuck_free', 'C06_write_terminates', 'C06_read_stuck_free', 'C06_read_request_above_buffer_finishes', 'C06_code_shape', 'C06_close_under_inflating_worker', 'C06_search_stops_on_failed_stream', 'C06_old_search_refuted', 'C06_close_example'],
     })
     v.assumptions += ['termination is under weak fairness of the scheduler']
     return 'proof'
